@@ -321,6 +321,18 @@ def run(chk):
                     and close(k2.average_min_distance, sc * sc * k1.average_min_distance, rtol=ktol, atol=ktol)
                     and np.array_equal(k2.predict(f(Xk)), k1.predict(Xk))):
                 chk.fail("k-means centroids do not follow a rotation + uniform scaling + translation of the data", {"X": hexlist(Xk), "init": hexlist(init), "scale": sc})
+            # the same k-means OBJECT re-used for the transformed data (new explicit start assigned): as a fresh object - nothing in the old units survives
+            try:
+                kr_ = KMeansMachine(n_clusters=len(init), init_method=np.array(init), max_iter=3, convergence_threshold=None)
+                kr_.fit(Xk)
+                kr_.init_method = np.array(f(init))
+                kr_.fit(f(Xk))
+                chk.count(1, key=("kmeans, same object re-used",))
+                if not close(kr_.centroids_, k2.centroids_, rtol=ktol, atol=ktol * (1 + float(np.abs(np.asarray(k2.centroids_)).max()))):
+                    chk.fail("a k-means object trained on the data and then (with the transformed start assigned) on the rotated, scaled (%.3g) and translated data does not give the centroids of a fresh object"
+                             % sc, {"X": hexlist(Xk), "init": hexlist(init), "scale": sc, "offset": float(big)})
+            except Exception as e:
+                chk.fail("re-using a k-means object raises %r" % (e,), {"X": hexlist(Xk)})
             # the same observables through Dask input (transform / predict of the transformed samples held in a Dask array)
             try:
                 import dask.array as _da
